@@ -10,6 +10,8 @@
    (ok NAME ATTRS DESC)         side conditions name_ok wiki_attr_ok desc_ok attr_ok
    (tsvw STRIP NAME ATTRS DESC) tsv row, followed by tsv_read_row of it
    (tsvr HEDID NAME ATTRSTR DESC)
+   (xmld S)                     description part of xml2schema._parse_node
+   (tsve STRIP INCL NAME ATTRS DESC)  Schema2DF._write_entry row
    (trav LIB WS MERGED TAGS UNITS SECTIONS)
    S = (codepoints); ATTRS = ((S T) | (S S) ...); DESC = N | S *)
 let exn_sx (e : exn) : sx = A (match e with
@@ -52,6 +54,9 @@ let sx_entry (x : sx) : entry = match x with
 let nats_sx l = L (List.map nat_sx l)
 let sec_sx l = L (List.map (fun (e, at) -> L [nat_sx e.e_id; nats_sx at]) l)
 
+(* VERIF_C05_FIXED (default 1): the repaired readers/writers (findings C05-F1, F3, F4) *)
+let fixed : bool = (match Sys.getenv_opt "VERIF_C05_FIXED" with Some "0" -> false | _ -> true)
+
 let () = main_loop (fun x ->
   ignore (force_types O N0);
   match x with
@@ -69,16 +74,16 @@ let () = main_loop (fun x ->
               (List.map (fun kv -> match kv with L [k; v] -> (sx_str k, sx_str v) | _ -> failwith "pair") (sx_list pairs))
               (sx_str sep))
   | L [A "cmp"; a; b] -> bool_sx (compare_attributes_no_order (sx_attrs a) (sx_attrs b))
-  | L [A "tline"; s] -> parsed_sx (read_tag_line (sx_str s))
-  | L [A "eline"; s] -> parsed_sx (read_entry_line (sx_str s))
+  | L [A "tline"; s] -> parsed_sx (read_tag_line fixed (sx_str s))
+  | L [A "eline"; s] -> parsed_sx (read_entry_line fixed (sx_str s))
   | L [A "wtag"; m; tag; lvl; a; d] ->
     (match write_tag_line (dis_of_mode (sx_int m)) (sx_str tag) (sx_nat lvl) (sx_attrs a) (sx_desc d) with
      | None -> L [A "N"]
-     | Some l -> L [str_sx l; parsed_sx (read_tag_line l); bool_sx (row_free_of_reserved l)])
+     | Some l -> L [str_sx l; parsed_sx (read_tag_line fixed l); bool_sx (row_free_of_reserved fixed (sx_str tag) l)])
   | L [A "went"; m; nm; depth; incl; a; d] ->
     (match write_entry_line (dis_of_mode (sx_int m)) (sx_str nm) (sx_nat depth) (sx_bool incl) (sx_attrs a) (sx_desc d) with
      | None -> L [A "N"]
-     | Some l -> L [str_sx l; parsed_sx (read_entry_line l); bool_sx (row_free_of_reserved l)])
+     | Some l -> L [str_sx l; parsed_sx (read_entry_line fixed l); bool_sx (row_free_of_reserved fixed (sx_str nm) l)])
   | L [A "ok"; nm; a; d] ->
     L [bool_sx (name_ok (sx_str nm)); bool_sx (wiki_attr_ok (sx_attrs a)); bool_sx (desc_ok (sx_desc d));
        bool_sx (attr_ok (sx_attrs a)); bool_sx (tsv_desc_ok (sx_desc d))]
@@ -88,6 +93,10 @@ let () = main_loop (fun x ->
       | Exn e -> L [A "exn"; exn_sx e]
       | Ok ((n, at), de) -> L [A "ok"; str_sx n; attrs_sx at; desc_sx de]) in
     L [str_sx r.r_hed_id; str_sx r.r_name; str_sx r.r_attributes; desc_sx r.r_description; back]
+  | L [A "xmld"; t] -> desc_sx (xml_read_desc fixed (sx_str t))
+  | L [A "tsve"; st; incl; nm; a; d] ->
+    let r = tsv_write_entry_row fixed (sx_bool st) (sx_bool incl) (sx_str nm) (sx_attrs a) (sx_desc d) in
+    L [str_sx r.r_hed_id; str_sx r.r_name; str_sx r.r_attributes; desc_sx r.r_description]
   | L [A "tsvr"; h; nm; at; d] ->
     (match tsv_read_row { r_hed_id = sx_str h; r_name = sx_str nm; r_attributes = sx_str at; r_description = sx_desc d } with
      | Exn e -> L [A "exn"; exn_sx e]
